@@ -27,6 +27,7 @@ type XType struct {
 	Path       string
 	Frac       int
 	Patterns   int
+	Posix      int
 	Union      []*XType
 }
 
@@ -514,6 +515,7 @@ func (c *compiler) resolveType(ctx *Mod, t *Type, depth int) *XType {
 		x.Path = t.Path
 	}
 	x.Patterns += len(t.Patterns)
+	x.Posix += len(t.Posix)
 	if t.Base != nil {
 		bm := c.s.Mod(t.Base.Mod)
 		if bm == nil || !c.identityExists(*t.Base) {
